@@ -41,10 +41,10 @@ ASSUMPTIONS = [
     "POSIX file-system semantics as modelled in Model/C04_Model.v: rename/link atomically rebind a name, O_CREAT|O_EXCL "
     "fails on an existing name, kill -9 loses user-space buffers but keeps what reached the kernel, power loss keeps "
     "only fsync'ed data, completed directory operations survive (journaling assumption)",
-    "part_file (if given) is a plain file name different from the destination's base name; the working directory does "
-    "not change during the save; destination and part are regular files (no symlinks/directories)",
-    "the body only writes/flushes the file object it is given, and may rewind it (seek(0)) when it is done; no "
-    "truncate, no writes after a seek, no access to the paths",
+    "part_file (if given) is a plain file name different from the destination's base name; destination and part are "
+    "regular files (no symlinks/directories)",
+    "the body only writes/flushes the file object it is given, may rewind it (seek(0)) when it is done and may change "
+    "the working directory; no truncate, no writes after a seek, no access to the paths",
     "the io layer's buffering policy is not modelled: after every write the model is told how many bytes the runtime "
     "pushed to the kernel (measured with fstat); the theorems hold for every such choice",
 ]
@@ -364,6 +364,8 @@ def _drive(fu, cfg, ctx, tmpdir, body, body_exc):
                 f.flush()
             elif op[0] == "r":
                 f.seek(0)        # rewind after writing (only generated as the last operation of a body)
+            elif op[0] == "cd":
+                os.chdir(os.path.join(tmpdir, SUB))     # the program changes its working directory inside the with-block
         ctx.body_idx = None
         if body_exc:
             raise (BodyAbort() if cfg.get("abort_kind") == "base" else BodyError())
@@ -398,8 +400,11 @@ def _drive(fu, cfg, ctx, tmpdir, body, body_exc):
         raise
 
 
+SUB = "sub"            # a sub-directory the body may chdir into; it may hold a decoy named like the part file
+
+
 def _names(cfg):
-    return {DEST: 0, part_name(cfg): 1, OTHER: 2}
+    return {DEST: 0, part_name(cfg): 1, OTHER: 2, SUB + "/" + part_name(cfg): 3}
 
 
 def is_partlink(init):
@@ -407,6 +412,13 @@ def is_partlink(init):
 
 
 def _populate(tmpdir, cfg, init):
+    if init.get("sub"):
+        os.mkdir(os.path.join(tmpdir, SUB))
+        if init.get("decoy") is not None:
+            p = os.path.join(tmpdir, SUB, part_name(cfg))
+            with open(p, "wb") as f:
+                f.write(init["decoy"][0].encode("utf-8"))
+            os.chmod(p, init["decoy"][1])
     for key, base in (("dest", DEST), ("part", part_name(cfg)), ("other", OTHER)):
         ent = init.get(key)
         if key == "part" and is_partlink(init):
@@ -423,7 +435,11 @@ def _populate(tmpdir, cfg, init):
 def scan(tmpdir, names):
     out = []
     names = dict(names)
-    for b in sorted(os.listdir(tmpdir)):
+    entries = sorted(os.listdir(tmpdir))
+    if SUB in entries and os.path.isdir(os.path.join(tmpdir, SUB)):
+        entries.remove(SUB)
+        entries += [SUB + "/" + x for x in sorted(os.listdir(os.path.join(tmpdir, SUB)))]
+    for b in entries:
         p = os.path.join(tmpdir, b)
         st = os.lstat(p)
         if b not in names:
@@ -732,8 +748,8 @@ def c_cfg(cfg):
 
 def c_init(case, tb):
     out = []
-    for key, tok in (("dest", 0), ("part", 1), ("other", 2)):
-        ent = case["init"].get(key)
+    for key, tok in (("dest", 0), ("part", 1), ("other", 2), ("decoy", 3)):
+        ent = case["init"].get(key) if (key != "decoy" or case["init"].get("sub")) else None
         if ent is not None:
             out.append("(%s, (%s, %s))" % (cnat(tok), tb.ref(utf8(ent[0])), cN(ent[1])))
     return clist(out)
@@ -750,6 +766,8 @@ def c_body(case, trace, tb):
     tb.disk_fill = {}
     vl = bl = 0          # bytes in the kernel / still buffered, to give never-executed writes an in-range value
     for j, op in enumerate(case["body"]):
+        if op[0] == "cd":
+            continue             # changing the working directory is an action of the environment: no file-system effect
         if op[0] == "w":
             n = len(utf8(data_of(op)))
             k = disk.get(j)
@@ -912,6 +930,11 @@ def gen_init(rng, cfg, want_dest=None, want_part=None):
             init["part"] = [rng.choice(["stale part", "", "PARTIAL"]), rng.choice([0o644, 0o600])]
     if rng.random() < 0.5:
         init["other"] = ["bystander", 0o644]
+    if rng.random() < 0.15:
+        # a sub-directory the body will chdir into; mostly with a decoy named like our part file
+        init["sub"] = True
+        if rng.random() < 0.6:
+            init["decoy"] = [rng.choice(["FOREIGN PART", ""]), rng.choice([0o600, 0o644])]
     return init
 
 
@@ -966,6 +989,9 @@ def generate(rng, tier, n):
                 init.pop("dest", None)
         else:
             init = gen_init(rng, cfg)
+        if init.get("sub"):
+            body = list(body)
+            body.insert(rng.randint(0, max(0, len(body) - (1 if body and body[-1][0] == "r" else 0))), ["cd"])
         case = {"cfg": cfg, "umask": rng.choice([0o022, 0o022, 0o077, 0, 0o027]), "init": init, "body": body,
                 "body_exc": rng.random() < 0.12, "sched": [], "crash": "all", "retry": False}
         if rng.random() < 0.12:
@@ -973,7 +999,7 @@ def generate(rng, tier, n):
             case["sched"] = [[rng.randint(0, 9), "fault", rng.choice([EIO, ENOSPC, EPERM])]]
         if big_budget:
             case["crash"] = sorted(set(rng.sample(range(0, 12), 5)))
-        elif not case["sched"] and i % 100 in (11, 57):
+        elif not case["sched"] and not init.get("sub") and i % 100 in (11, 57):
             case["strace"] = True          # cross-check the recorder against the kernel's view on this run
         elif rng.random() < (0.25 if tier == "quick" else 0.5):
             # a few real SIGKILLs at arbitrary instants of a slowed-down run
@@ -1033,6 +1059,8 @@ def distribution(d, case, obs):
     bump("init", "dest=%d part=%d%s" % ("dest" in case["init"], "part" in case["init"],
                                         " (hard link)" if is_partlink(case["init"]) else ""))
     bump("writes", str(min(len([o for o in case["body"] if o[0] == "w"]), 6)))
+    if any(o[0] == "cd" for o in case["body"]):
+        bump("chdir_in_body", cfg.get("path", "abs") + (" +decoy" if case["init"].get("decoy") else ""))
     d["kills"] = d.get("kills", 0) + len([1 for k, _ in obs["crashes"] if k < len(obs["run"]["trace"])])
     d["published"] = d.get("published", 0) + (1 if published(obs) else 0)
     if obs.get("strace"):
